@@ -352,6 +352,20 @@ def run(ctx):
                         ctx.record_violation('column-extended-slice', 'description entry [%r:%r:%r] gives %r, its items give %r'
                                              % (a, b, c, got, items[a:b:c]))
                         break
+    # entries are equal exactly when name and type agree
+    cur2 = conn.cursor()
+    cur2.execute('SELECT x AS a, y AS b, x AS c FROM #r0')
+    cur3 = conn.cursor()
+    cur3.execute('SELECT y AS a, y AS d, x AS c FROM #r0')
+    d2, d3 = cur2.description, cur3.description
+    eqs = [(d2[0] == d3[0], False, 'same name, other type'), (d2[0] != d3[0], True, 'same name, other type (!=)'),
+           (d2[1] == d3[1], False, 'other name, same type'), (d2[2] == d3[2], True, 'same name, same type'),
+           (d2[2] != d3[2], False, 'same name, same type (!=)'), (tuple(d2) == tuple(d3), False, 'descriptions'),
+           (d2[0] == ('a', int), True, 'entry and (name, type) pair'), (d2[0] == ('a', str), False, 'entry and (name, other type) pair')]
+    for got, want, what in eqs:
+        ctx.count('column-equality')
+        if got is not want:
+            ctx.record_violation('column-equality', 'comparison of description entries: %s gives %r' % (what, got))
     ctx.evaluations += 1
     # random long sequences
     for case in range(20000 if ctx.thorough() else 150):
